@@ -1122,14 +1122,15 @@ def check(name, clause, detail=None):
         status = 'proved'
     elif res == z3.sat:
         status = 'failed'
-        rb = r.solver.check(c.robneg) if c.robneg is not None else z3.unknown
-        if rb == z3.sat:
-            model = _model_dict(r.solver.model(), r)
-            robust = True
-        else:
-            r.solver.check(neg)
-            model = _model_dict(r.solver.model(), r)
-            robust = False
+        model = _model_dict(r.solver.model(), r)      # keep the exact counter-model before looking for one with margin
+        robust = False
+        try:
+            rb = r.solver.check(c.robneg) if c.robneg is not None else z3.unknown
+            if rb == z3.sat:
+                model = _model_dict(r.solver.model(), r)
+                robust = True
+        except z3.Z3Exception:
+            pass
     else:
         backend = 'cvc5'
         o = _cvc5_check(r.solver, neg)
